@@ -12,7 +12,7 @@
    follow utils.div.  Finite values of sqrt / exp are stand-ins that keep the sign class.
    The semantics below is hand-written (trusted) and compared with the real operators on special values by
    tools/props/C18.py.  Definitions only. *)
-From Coq Require Export QArith String List Bool ZArith.
+From Coq Require Export QArith Qround String List Bool ZArith.
 From TT Require Export lib.Base.
 Export ListNotations.
 
@@ -174,6 +174,8 @@ Definition nexp_sat (x : num) : num :=
       end
   end.
 (* "Python raises here" (RuntimeError / ValueError raised by the code itself) *)
+(* math.ceil (only used by power analysis, outside C18): value kept, int kind; ceil of inf / NaN raises in Python *)
+Definition nceil (x : num) : num := match x with Plain _ (FFin q) | Wrapped _ (FFin q) => Plain true (FFin (inject_Z (Qceiling q))) | Raise e => Raise e | _ => Raise OverflowError end.
 Definition nraise : num := Raise OtherError.
 Definition dist_raise : dist num := mk_dist (fun _ => nraise) (fun _ => nraise) (fun _ => nraise) (fun _ => nraise).
 Definition oget_dist (o : option (dist num)) : dist num := match o with Some d => d | None => dist_raise end.
